@@ -1,0 +1,229 @@
+//go:build verif
+
+// Contracts for package mempool, read by /verif/govc (comment-only; compiled by nobody).
+package mempool
+
+// ---- ghost state shared with every client of the allocator interface
+// liveP[p]: the handle p (*[]byte) was handed out by an allocator and has not been given back   (C11 typestate)
+// poolCap[pool]: 0 = not a byte-buffer pool; -1 = byte buffers of any capacity; n > 0 = byte buffers of capacity n
+//@ ghost liveP : (Array Int Bool)
+//@ ghost poolCap : (Array Int Int)
+// ghost state of objects that do not exist yet is the default
+//@ axiom forall p int :: p > top ==> !liveP[p]
+
+// ---- the allocator interface contract: what every client may rely on, what every implementation must satisfy
+//@ iface mempool.Allocator.Malloc
+//@   requires size >= 0
+//@   ensures nonnil: result != nil                                              // prop C20 C11
+//@   ensures len: len(*result) == size && cap(*result) >= size                  // prop C20
+//@   ensures handle: !old(liveP[result]) && liveP[result]                       // prop C11 C20
+//@   ensures freshmem: fresh(*result)                                           // prop C20
+//@   ensures others: forall q int :: q != result ==> liveP[q] == old(liveP[q])  // prop C20 C11
+//@   assigns *result, liveP, allocates
+
+//@ iface mempool.Allocator.Free
+//@   requires buf != nil && liveP[buf]
+//@   ensures dead: !liveP[buf]                                                  // prop C11 C20
+//@   ensures others: forall q int :: q != buf ==> liveP[q] == old(liveP[q])     // prop C11 C20
+//@   assigns liveP
+
+//@ iface mempool.Allocator.Append
+//@   requires buf != nil && liveP[buf]
+//@   ensures nonnil: result != nil                                              // prop C20 C11
+//@   ensures len: len(*result) == old(len(*buf)) + len(more)                    // prop C20
+//@   ensures keep: forall j int :: 0 <= j && j < old(len(*buf)) ==> (*result)[j] == old((*buf)[j])      // prop C20
+//@   ensures more: forall j int :: 0 <= j && j < len(more) ==> (*result)[old(len(*buf)) + j] == old(more[j])  // prop C20
+//@   ensures mem: base(*result) == old(base(*buf)) || fresh(*result)            // prop C20
+//@   ensures handle: liveP[result] && (result != buf ==> !liveP[buf] && !old(liveP[result]))  // prop C11 C20
+//@   ensures others: forall q int :: q != buf && q != result ==> liveP[q] == old(liveP[q])    // prop C11 C20
+//@   assigns *result, elems(*result), liveP, allocates
+
+//@ iface mempool.Allocator.AppendString
+//@   requires buf != nil && liveP[buf]
+//@   ensures nonnil: result != nil                                              // prop C20 C11
+//@   ensures len: len(*result) == old(len(*buf)) + len(more)                    // prop C20
+//@   ensures keep: forall j int :: 0 <= j && j < old(len(*buf)) ==> (*result)[j] == old((*buf)[j])      // prop C20
+//@   ensures more: forall j int :: 0 <= j && j < len(more) ==> (*result)[old(len(*buf)) + j] == more[j]  // prop C20
+//@   ensures mem: base(*result) == old(base(*buf)) || fresh(*result)            // prop C20
+//@   ensures handle: liveP[result] && (result != buf ==> !liveP[buf] && !old(liveP[result]))  // prop C11 C20
+//@   ensures others: forall q int :: q != buf && q != result ==> liveP[q] == old(liveP[q])    // prop C11 C20
+//@   assigns *result, elems(*result), liveP, allocates
+
+//@ iface mempool.Allocator.Realloc
+//@   requires buf != nil && liveP[buf] && size >= 0
+//@   ensures nonnil: result != nil                                              // prop C20 C11
+//@   ensures len: len(*result) == size                                          // prop C20
+//@   ensures keep: forall j int :: 0 <= j && j < old(len(*buf)) && j < size ==> (*result)[j] == old((*buf)[j])  // prop C20
+//@   ensures mem: base(*result) == old(base(*buf)) || fresh(*result)            // prop C20
+//@   ensures handle: liveP[result] && (result != buf ==> !liveP[buf] && !old(liveP[result]))  // prop C11 C20
+//@   ensures others: forall q int :: q != buf && q != result ==> liveP[q] == old(liveP[q])    // prop C11 C20
+//@   assigns *result, elems(*result), liveP, allocates
+
+// ---- sync.Pool as used for byte buffers (trusted). Get returns New() or an element previously Put and not yet
+// returned. To a program that never touches a buffer after giving it back (property C11, proved for the library's
+// own code) an element taken from the pool is indistinguishable from a newly allocated one, so Get is specified as
+// returning a handle and a backing array that are new to the caller; what Put required (capacity class) still holds.
+//@ package sync
+//@ extern (*sync.Pool).Get
+//@   params self
+//@   ensures poolCap[self] != 0 ==> istype(result, "*[]byte") && as(result, "*[]byte") != nil
+//@   ensures poolCap[self] != 0 ==> fresh(as(result, "*[]byte")) && fresh(*as(result, "*[]byte"))
+//@   ensures poolCap[self] > 0 ==> cap(*as(result, "*[]byte")) == poolCap[self]
+//@   assigns allocates
+//@ extern (*sync.Pool).Put
+//@   params self x
+//@   requires elem: poolCap[self] != 0 ==> istype(x, "*[]byte") && as(x, "*[]byte") != nil && !liveP[as(x, "*[]byte")]
+//@   requires cap: poolCap[self] > 0 ==> cap(*as(x, "*[]byte")) == poolCap[self]
+
+//@ package mempool
+
+// statistics only (debugger.go); bodies not verified
+//@ func (*debugger).incrMalloc
+//@   trusted
+//@   requires d != nil
+//@   assigns debugger.MallocCount, debugger.FreeCount, debugger.NeedFree, debugger.SizeMap, sizeMap.MallocCount, sizeMap.FreeCount, sizeMap.NeedFree, allocates
+//@ func (*debugger).incrFree
+//@   trusted
+//@   requires d != nil
+//@   assigns debugger.MallocCount, debugger.FreeCount, debugger.NeedFree, debugger.SizeMap, sizeMap.MallocCount, sizeMap.FreeCount, sizeMap.NeedFree, allocates
+
+// ---- MemPool
+//@ pred MPInv(mp *MemPool) := mp.debugger != nil && mp.pool != nil && poolCap[mp.pool] == -1 && mp.freeSize > 0
+
+//@ func (*MemPool).Malloc
+//@   props C20
+//@   implements mempool.Allocator.Malloc
+//@   safety index slice nil div assert panic make
+//@   requires MPInv(mp)
+//@   assigns debugger.MallocCount, debugger.FreeCount, debugger.NeedFree, debugger.SizeMap, sizeMap.MallocCount, sizeMap.FreeCount, sizeMap.NeedFree
+//@   at return ghost { liveP[result] = true }
+
+//@ func (*MemPool).Free
+//@   props C20
+//@   implements mempool.Allocator.Free
+//@   safety index slice nil div assert panic make
+//@   requires MPInv(mp)
+//@   assigns debugger.MallocCount, debugger.FreeCount, debugger.NeedFree, debugger.SizeMap, sizeMap.MallocCount, sizeMap.FreeCount, sizeMap.NeedFree, allocates
+//@   at entry ghost { liveP[pbuf] = false }
+
+//@ func (*MemPool).Realloc
+//@   props C20
+//@   implements mempool.Allocator.Realloc
+//@   safety index slice nil div assert panic make
+//@   requires MPInv(mp)
+//@   assigns debugger.MallocCount, debugger.FreeCount, debugger.NeedFree, debugger.SizeMap, sizeMap.MallocCount, sizeMap.FreeCount, sizeMap.NeedFree
+//@   at return ghost { liveP[result] = true }
+
+//@ func (*MemPool).Append
+//@   props C20
+//@   implements mempool.Allocator.Append
+//@   safety index slice nil div assert panic make
+//@   requires MPInv(mp)
+//@   assigns debugger.MallocCount, debugger.FreeCount, debugger.NeedFree, debugger.SizeMap, sizeMap.MallocCount, sizeMap.FreeCount, sizeMap.NeedFree
+
+//@ func (*MemPool).AppendString
+//@   props C20
+//@   implements mempool.Allocator.AppendString
+//@   safety index slice nil div assert panic make
+//@   requires MPInv(mp)
+//@   assigns debugger.MallocCount, debugger.FreeCount, debugger.NeedFree, debugger.SizeMap, sizeMap.MallocCount, sizeMap.FreeCount, sizeMap.NeedFree
+
+// ---- stdAllocator: every buffer comes from make; Free only counts
+//@ func (*stdAllocator).Malloc
+//@   props C20
+//@   implements mempool.Allocator.Malloc
+//@   safety index slice nil div assert panic make
+//@   requires a.debugger != nil
+//@   assigns debugger.MallocCount, debugger.FreeCount, debugger.NeedFree, debugger.SizeMap, sizeMap.MallocCount, sizeMap.FreeCount, sizeMap.NeedFree
+//@   at return ghost { liveP[result] = true }
+//@ func (*stdAllocator).Realloc
+//@   props C20
+//@   implements mempool.Allocator.Realloc
+//@   safety index slice nil div assert panic make
+//@   requires a.debugger != nil
+//@   at return ghost { liveP[pbuf] = false; liveP[result] = true }
+//@ func (*stdAllocator).Free
+//@   props C20
+//@   implements mempool.Allocator.Free
+//@   safety index slice nil div assert panic make
+//@   requires a.debugger != nil
+//@   assigns debugger.MallocCount, debugger.FreeCount, debugger.NeedFree, debugger.SizeMap, sizeMap.MallocCount, sizeMap.FreeCount, sizeMap.NeedFree, allocates
+//@   at entry ghost { liveP[pbuf] = false }
+//@ func (*stdAllocator).Append
+//@   props C20
+//@   implements mempool.Allocator.Append
+//@   safety index slice nil div assert panic make
+//@ func (*stdAllocator).AppendString
+//@   props C20
+//@   implements mempool.Allocator.AppendString
+//@   safety index slice nil div assert panic make
+
+// ---- AlignedAllocator: twelve buckets of capacity 32<<i; alignedIndexes[s] = smallest bucket that fits s
+//@ pred bucketCap(i int) := ite(i == 0, 32, ite(i == 1, 64, ite(i == 2, 128, ite(i == 3, 256, ite(i == 4, 512, ite(i == 5, 1024, ite(i == 6, 2048, ite(i == 7, 4096, ite(i == 8, 8192, ite(i == 9, 16384, 32768))))))))))
+//@ pred isBucketCap(n int) := n == 32 || n == 64 || n == 128 || n == 256 || n == 512 || n == 1024 || n == 2048 || n == 4096 || n == 8192 || n == 16384 || n == 32768
+// established by init() (aligned_allocator.go:24-49); assumed here, see DESIGN.md
+//@ axiom forall s int :: 0 <= s && s <= 32768 ==> 0 <= alignedIndexes[s] && alignedIndexes[s] <= 10 && s <= bucketCap(alignedIndexes[s]) && (alignedIndexes[s] > 0 ==> s > bucketCap(alignedIndexes[s] - 1))
+//@ axiom forall i int :: 0 <= i && i <= 10 ==> poolCap[&alignedPools[i]] == bucketCap(i)
+
+//@ func (*AlignedAllocator).Malloc
+//@   props C20
+//@   implements mempool.Allocator.Malloc
+//@   safety index slice nil div assert panic make
+//@   requires amp.debugger != nil
+//@   assigns debugger.MallocCount, debugger.FreeCount, debugger.NeedFree, debugger.SizeMap, sizeMap.MallocCount, sizeMap.FreeCount, sizeMap.NeedFree
+//@   at return ghost { liveP[result] = true }
+
+//@ func (*AlignedAllocator).Free
+//@   props C20
+//@   implements mempool.Allocator.Free
+//@   safety index slice nil div assert panic make
+//@   requires amp.debugger != nil
+//@   assigns debugger.MallocCount, debugger.FreeCount, debugger.NeedFree, debugger.SizeMap, sizeMap.MallocCount, sizeMap.FreeCount, sizeMap.NeedFree, allocates
+//@   at entry ghost { liveP[pbuf] = false }
+
+//@ func (*AlignedAllocator).Realloc
+//@   props C20
+//@   implements mempool.Allocator.Realloc
+//@   safety index slice nil div assert panic make
+//@   requires amp.debugger != nil
+//@   assigns debugger.MallocCount, debugger.FreeCount, debugger.NeedFree, debugger.SizeMap, sizeMap.MallocCount, sizeMap.FreeCount, sizeMap.NeedFree
+//@   at return ghost { liveP[result] = true }
+
+//@ func (*AlignedAllocator).Append
+//@   props C20
+//@   implements mempool.Allocator.Append
+//@   safety index slice nil div assert panic make
+//@   requires amp.debugger != nil
+//@   assigns debugger.MallocCount, debugger.FreeCount, debugger.NeedFree, debugger.SizeMap, sizeMap.MallocCount, sizeMap.FreeCount, sizeMap.NeedFree
+//@   at return ghost { liveP[result] = true }
+
+// unsafe string->slice cast: "same bytes, same length" is trusted; the body is not verified
+//@ func (*AlignedAllocator).AppendString
+//@   trusted
+//@   implements mempool.Allocator.AppendString
+
+// ---- constructors establish the object invariants the methods rely on
+//@ func New
+//@   props C20
+//@   safety index slice nil div assert panic make
+//@   ensures inv: istype(result, "*MemPool") && as(result, "*MemPool") != nil && MPInv(as(result, "*MemPool"))  // prop C20
+//@   ensures sizes: as(result, "*MemPool").bufSize > 0 && as(result, "*MemPool").freeSize >= as(result, "*MemPool").bufSize  // prop C20
+//@   assigns poolCap, allocates
+//@   at return ghost { poolCap[as(result, "*MemPool").pool] = -1 }
+//@ func NewAligned
+//@   props C20
+//@   safety index slice nil div assert panic make
+//@   ensures inv: istype(result, "*AlignedAllocator") && as(result, "*AlignedAllocator") != nil && as(result, "*AlignedAllocator").debugger != nil  // prop C20
+//@   assigns allocates
+//@ func NewSTD
+//@   props C20
+//@   safety index slice nil div assert panic make
+//@   ensures inv: istype(result, "*stdAllocator") && as(result, "*stdAllocator") != nil && as(result, "*stdAllocator").debugger != nil  // prop C20
+//@   assigns allocates
+// the pool's New function: a buffer of the configured size behind a new handle
+//@ func New$1
+//@   props C20
+//@   safety index slice nil div assert panic make
+//@   requires bufSize >= 0
+//@   ensures elem: istype(result, "*[]byte") && fresh(as(result, "*[]byte")) && fresh(*as(result, "*[]byte")) && len(*as(result, "*[]byte")) == bufSize  // prop C20
+//@   assigns allocates
